@@ -20,7 +20,7 @@ def linearise(case, out):
     ev = out["events"]
     commits = [e[0] for e in ev if e[2] == "lmdb_commit"]
     items = []
-    stats = {"sections": 0, "reads": 0, "heads": 0, "heads_ambiguous": 0}
+    stats = {"sections": 0, "reads": 0, "heads": 0, "heads_ambiguous": 0, "vtx": 0}
     by_thread = {}
     for e in ev:
         by_thread.setdefault(e[1], []).append(e)
@@ -47,6 +47,11 @@ def linearise(case, out):
             if acq and c["val"] >= -1:
                 items.append((acq[0], {"k": "Read", "t": t, "c": c["c"], "val": c["val"]}))
                 stats["reads"] += 1
+        elif c["k"] == "ValidateTx":
+            acq = [e[0] for e in by_thread.get(t, []) if c["s0"] < e[0] < c["s1"] and e[2] == "r_acq" and e[3] == tx]
+            if acq:
+                items.append((acq[0], {"k": "VTx", "t": t, "b": c["b"], "ok": c["ok"]}))
+                stats["vtx"] = stats.get("vtx", 0) + 1
         elif c["k"] == "Head" and "head" in c and c["head"] is not None:
             if any(c["s0"] < s < c["s1"] for s in commits):
                 stats["heads_ambiguous"] += 1      # a commit landed during the unlocked read: not placed
